@@ -16,7 +16,7 @@ import os, sys, json, time, subprocess, concurrent.futures as cf
 import common
 
 HARNESS = "c44_unfold"
-# bound id, mode, n, extra argv, shards, estimated core-seconds on an idle machine (only used to decide whether to start)
+# bound id, mode, n, extra argv, shards, estimated CPU-seconds (only used to decide whether to start a bound)
 PLAN = {
     "quick": [
         ("iter m<=5 k<=3", "iter", 5, ["3"], 1, 1),
@@ -38,12 +38,13 @@ PLAN = {
         ("label n=2 all-dags LUWR pairs=all orders=0123", "label", 2, ["LUWR", "all", "2", "0123"], 1, 1),
         ("label n=3 all-dags LUWR pairs=all orders=0123", "label", 3, ["LUWR", "all", "2", "0123"], 4, 4),
         ("label n=4 all-dags LUWR pairs=all orders=03", "label", 4, ["LUWR", "all", "2", "03"], 64, 55),
-        ("label n=5 all-posets LUWR pairs=antichains orders=03", "label", 5, ["LUWR", "reduced", "1", "03"], 256, 2800),
-        ("struct n=6 orders=0", "struct", 6, ["0"], 256, 1100),
-        ("struct n=6 orders=3", "struct", 6, ["3"], 256, 1100),
-        ("label n=6 posets-up-to-iso LUR pairs=none orders=0", "label", 6, ["LUR", "iso", "0", "0"], 192, 3500),
-        ("struct n=6 orders=1", "struct", 6, ["1"], 256, 1100),
-        ("struct n=6 orders=2", "struct", 6, ["2"], 256, 1100),
+        ("label n=5 posets-up-to-iso LUWR pairs=antichains orders=03", "label", 5, ["LUWR", "iso", "1", "03"], 128, 800),
+        ("struct n=6 orders=0", "struct", 6, ["0"], 256, 1400),
+        ("label n=6 posets-up-to-iso LUR pairs=none orders=0", "label", 6, ["LUR", "iso", "0", "0"], 192, 4200),
+        ("label n=5 all-posets LUWR pairs=antichains orders=03", "label", 5, ["LUWR", "reduced", "1", "03"], 256, 4300),
+        ("struct n=6 orders=3", "struct", 6, ["3"], 256, 1400),
+        ("struct n=6 orders=1", "struct", 6, ["1"], 256, 1400),
+        ("struct n=6 orders=2", "struct", 6, ["2"], 256, 1400),
     ],
 }
 ROOT_CAUSE = "misses-conflict-inherited-on-both-sides"   # one defect seen through three methods
@@ -66,7 +67,10 @@ WHAT = {
 
 
 def _run_shard(job):
-    binary, mode, n, extra, shard, nshards, timeout = job
+    binary, mode, n, extra, shard, nshards, kill_at = job
+    timeout = kill_at - time.time()
+    if timeout <= 0:
+        return {"timeout": True}
     if mode == "iter":
         cmd = [binary, "iter", str(n)] + extra
     elif mode == "struct":
@@ -146,27 +150,30 @@ def run(ctx):
                labellings_represented=0, wellformed_labellings=0, conflict_pairs=0, conflict_pairs_inherited_both_sides=0,
                k0_none=0, k0_empty=0)
     samples, exhaustive, per_bound = [], True, []
-    eff = max(1.0, common.NCPU * 0.5)   # the machine is shared: assume half of the cores
+    eff = max(1.0, common.NCPU * 0.5)   # CPU-seconds of harness work obtained per wall second: measured as the run goes
+    cpu_done = wall_done = 0.0
     for bi, (bid, mode, n, extra, nshards, est) in enumerate(plan):
-        if ctx.deadline.over() or ctx.deadline.left() < est / eff:
+        if wall_done > 5:
+            eff = max(0.5, min(common.NCPU, cpu_done / wall_done))
+        if ctx.deadline.over() or ctx.deadline.left() < 1.15 * est / eff:
             exhaustive = False
             bounds_skipped.append(bid)
-            common.log("C44: bound '%s' not started (%.0fs left, needs ~%.0fs)" % (bid, ctx.deadline.left(), est / eff))
+            common.log("C44: bound '%s' not started (%.0fs left, needs ~%.0fs at the %.1f cores measured so far)" % (bid, ctx.deadline.left(), est / eff, eff))
             continue
         t0 = time.time()
         order = list(range(nshards))
         if ctx.seed:
             import random
             random.Random(ctx.seed).shuffle(order)
-        timeout = max(60, ctx.deadline.left() + 120)    # a started bound may overrun a little, never forever
-        jobs = [(binary, mode, n, extra, s, nshards, timeout) for s in order]
+        kill_at = time.time() + max(20, ctx.deadline.left() + 20)    # a started bound may overrun a little, never long
+        jobs = [(binary, mode, n, extra, s, nshards, kill_at) for s in order]
         with cf.ThreadPoolExecutor(max_workers=common.NCPU) as ex:
             res = list(ex.map(_run_shard, jobs))
         if any(r.get("timeout") for r in res):
             exhaustive = False
             bounds_skipped.append(bid + " (started, not completed: discarded)")
             common.log("C44: bound '%s' did not complete before the deadline" % bid)
-            break
+            continue
         ok = True
         b = dict(bound=bid, cases=0, nontrivial=0, subset_evals=0, calls=0, disagreements=0)
         for r in res:
@@ -216,6 +223,9 @@ def run(ctx):
             common.log("C44: harness failure in bound '%s'" % bid)
             sys.exit(2)
         b["wall_s"] = round(time.time() - t0, 1)
+        if est >= 20:
+            cpu_done += est
+            wall_done += time.time() - t0
         per_bound.append(b)
         tot["evaluations"] += b["cases"]
         tot["nontrivial"] += b["nontrivial"] if mode != "iter" else 0
